@@ -83,8 +83,10 @@ PROP = {'gen': [],
  'coq_props_more': [{'target': 'theories/Props/C15Prod.vo', 'file': 'theories/Props/C15Prod.v', 'module': 'Props.C15Prod'}],
  'props_file': 'theories/Props/C15.v',
  'props_module': 'Props.C15',
- 'corr_check': 'SNT.Corr.C15Corr.c15_check (model Automata/{NFA,Build,Compile}.v vs surf_n_term::automata::{NFA, DFA}: NFA graph from '
-               'the Debug output, DFA enumerated through start/transition/info, acceptance/terminal/tags after every short string)',
+ 'corr_check': 'SNT.Corr.C15All.c15_any_check (expression cases: model Automata/{NFA,Build,Compile}.v vs surf_n_term::automata::{NFA, DFA}: NFA '
+               'graph from the Debug output, DFA enumerated through start/transition/info, acceptance/matches/terminal/tags after every '
+               'short string and DFA-derived probes; production cases: byte strings through the real event/command/utf8 DFAs vs the '
+               'dumped production NFA)',
  'level_text': 'Coq theorems over an executable model of the NFA combinators, NFA::compile and DFA stepping (src/automata.rs): for '
                'every expression (arbitrary nesting) and every byte string, the built NFA has an accepting path iff the expression '
                'matches (C15_build); for every NFA whose edge lists are maps, compile terminates without panic (C15_compile_total: for NFAs that are also well formed, `wf n`: start, stop and every edge '
@@ -96,7 +98,7 @@ PROP = {'gen': [],
                'of the matching alternatives (C15_tags_tagged_choice), as the special case of the general expression-level law for tags in '
                'arbitrary positions (C15_tags: reported tags = {t | some (t, r) of tex e has r matching s}; C15_tags_reachable is the '
                'NFA-level form); the efficient rendering compile_fast used under vm_compute equals the reference compile '
-               '(C15_compile_fast); each production DFA of decoder.rs, as dumped on this run, is the subset construction of the '
+               '(Lemma C15_compile_fast); each production DFA of decoder.rs, as dumped on this run, is the subset construction of the '
                'production NFA dumped before compile (Props/C15Prod.v, a separate target: C15_production_event/command/utf8, verified '
                'certificate checker = translation validation; the model of compile run on the production NFAs reproduces the production '
                'DFAs state for state). The model is tied to the code by a differential run: NFA graph (Debug output), '
@@ -108,7 +110,7 @@ PROP = {'gen': [],
  'technique': 'Coq proof (structural induction over expressions with path decomposition lemmas; invariant of the subset construction) '
               '+ model/implementation correspondence',
  'design_ref': 'DESIGN.md 5, 6.15',
- 'n_quick': 900,
+ 'n_quick': 600,
  'n_thorough': 12000,
  'shard': 60,
  'level': 'proof',
